@@ -15,7 +15,7 @@ _NP_MOD = {"Count": "count", "Sum": "sum", "Average": "average", "Deviate": "dev
 C13_BOUND = (
     "Bin (num, low, high) in {(10,0,1), (3,0,1), (7,-2.5,4.5), (10,0.1,1.1), (1,0,1), (100,1000,1000.5), (6,-1e6,1e6)}; "
     "SparselyBin (width, origin) in {(1,0), (0.1,0), (1/3,0.5), (0.5,1000.25), (2,-7)} incl. negative indexes; "
-    "CentrallyBin centres {(0,1,2.5), (-3,-1,0.5,10), (1000,1000.5,1001.5)}; IrregularlyBin edges {(0,1,2), (-1.5,0.1,0.3,7), (1000,1000.5)}; "
+    "CentrallyBin centres {(0,1,2.5), (-3,-1,0.5,10), (1000,1000.5,1001.5), (0.1,0.7,1.7,4.9), (1/3,0.7,1e6)}; IrregularlyBin edges {(0,1,2), (-1.5,0.1,0.3,7), (1000,1000.5), (0.1,0.7,1.7,4.9)} (these two classes: exact comparison, no ulp allowance); "
     "probe data = every edge / midpoint, each +-1 ulp, and values outside the domain; sub-ranges = ordered pairs of those probes inside the "
     "binned domain (at most 400 per configuration); edge-vs-datum comparisons allow 8 ulp of the largest edge, counts and contents are exact"
 )
